@@ -20,7 +20,8 @@ CFG = dict(
          "three-way, int64-wrap cancelling, adding + literal zero, cancel-and-revive; with both / no / string / numeric labels; as a one-element "
          "list through Merge and through p.Compact(), and in 2-3 input lists); histories (an input or an earlier RESULT that has been through Merge/Compact is edited in place -- Aggregate flags, "
          "attributes made alike or made different, random point edits -- and merged / compacted again; random sessions over live "
-         "profiles; every operation is judged on the dump taken immediately before it); END TO END through driver.PProf (one-shot -proto/-raw command lines with option combinations, failing sources, "
+         "profiles; every operation is judged on the dump taken immediately before it); END TO END through driver.PProf (incl. weights beyond 2^53 / at the int64 extremes, heap-like / duplicate / empty value types, "
+         "no-mapping sources; inputs serialised / copied / compacted before the merge; one-shot -proto/-raw command lines with option combinations, failing sources, "
          "bases, 130+ sources; interactive sessions; web requests incl. /download; outputs parsed back and compared with the glue model "
          "M_MergeGlue); systematic single-attribute pairs (61 "
          "attributes of mapping/function/line/location/label/num-label/stack x same-profile, two-profile, crossed, cancelling); header "
